@@ -40,6 +40,8 @@ func main() {
 		vlib.Group{Name: "rawlong", Gen: genRawLong},
 		vlib.Group{Name: "same-object", Gen: genSame},
 		vlib.Group{Name: "inplace-to", Gen: genInPlace},
+		vlib.Group{Name: "history", Gen: genHistory},
+		vlib.Group{Name: "accessors", Gen: genAccessors},
 	)
 	vlib.Main("C04", groups...)
 }
